@@ -41,6 +41,9 @@ type Outcome struct {
 	Servers  []string // "ip:port w=N" of servers that can receive traffic, sorted (w=0: draining)
 	Detail   string
 	Frontend string
+	// HostMatched: the frontend's host/path maps yielded a backend (req.backend /
+	// req.hostbackend); false when the default host, the default backend or 404 answered.
+	HostMatched bool
 	// Intercepts lists the lua.auth-intercept calls executed for the request.
 	Intercepts []string
 	Unknown    []string
@@ -105,6 +108,7 @@ func (c *HAConfig) Eval(req Req, opt *NFOptions) Outcome {
 	}
 	out.Frontend = fs.Name
 	be, terminal := e.runSection(fs, true)
+	out.HostMatched = e.vars["req.backend"] != "" || e.vars["req.hostbackend"] != ""
 	if terminal {
 		return out
 	}
